@@ -72,3 +72,11 @@ Print Assumptions C11_store_collects_in_order.
 Theorem C11_int_reads_back : forall n, 0 <= n -> py_int (dec n) = Some n.
 Proof. exact py_int_dec. Qed.
 Print Assumptions C11_int_reads_back.
+
+(* character level: a document in the plain form (which is what the writer emits - checked per run on emitted SKRs) is read by the
+   reader as exactly its tree, so the element-tree round trip above (skr_roundtrip) extends to the text of the file *)
+From KV Require Import Model.XmlTree Proofs.XmlTreeProofs.
+Theorem C11_plain_document_reads_as_its_tree : forall uni_word t, wf t = true -> (height t <= 5)%nat ->
+  parse uni_word (ser t) = Done [(tname t, val_of t)].
+Proof. exact reader_extracts_tree. Qed.
+Print Assumptions C11_plain_document_reads_as_its_tree.
